@@ -50,13 +50,25 @@ func (b *evBackend) SendMetricsAsync(ctx context.Context, mm *gostatsd.MetricMap
 }
 func (b *evBackend) SendEvent(ctx context.Context, ev *gostatsd.Event) error {
 	cp := copyEvent(ev)
-	if _, err := b.gate.ArriveCtx(ctx, ev.Title, nil); err != nil {
+	out, err := b.gate.ArriveCtx(ctx, ev.Title, nil)
+	if err != nil {
 		b.mu.Lock()
 		b.fail[ev.Title]++
 		b.mu.Unlock()
 		return err
 	}
 	now := copyEvent(ev)
+	if own, isErr := out.(error); isErr {
+		// the backend was handed the event once and failed on its own (e.g. its request timed out):
+		// that is its one delivery
+		b.mu.Lock()
+		if eventString(now) != eventString(cp) {
+			b.fail["CHANGED:"+ev.Title]++
+		}
+		b.got[ev.Title] = append(b.got[ev.Title], now)
+		b.mu.Unlock()
+		return own
+	}
 	b.mu.Lock()
 	if eventString(now) != eventString(cp) {
 		b.fail["CHANGED:"+ev.Title]++
@@ -73,6 +85,9 @@ func (b *evBackend) release(p *Parked) {
 		b.gate.Release(p, nil)
 	}
 }
+
+// releaseFailing lets a (non-http) backend fail the send on its own with a context-class error.
+func (b *evBackend) releaseFailing(p *Parked, err error) { b.gate.Release(p, err) }
 
 // c19Up is what the upstream server's ingestion router dispatches into (forwarder mode).
 type c19Up struct{ b *evBackend }
@@ -96,7 +111,7 @@ type c19Expect struct {
 
 func (c19) Run(e *Env) {
 	e.ProbeDecl("event-via-datagram", "event-via-http", "parked-for-lookup", "lookup-success", "lookup-failure", "cache-hit", "two-events-one-parser-first-still-held", "backend-held", "semaphore-full", "wait-for-events-while-held",
-		"no-backends", "escaped-newline", "absent-date", "all-fields", "release-parked-before-hand-over", "forwarder-mode", "forwarder-retry")
+		"no-backends", "escaped-newline", "absent-date", "all-fields", "release-parked-before-hand-over", "forwarder-mode", "forwarder-retry", "backend-send-fails")
 	nBackends := e.Draw(4)
 	maxConc := e.Range(1, 3)
 	// forwarder mode: the pipeline ends in the real HttpForwarderHandlerV2 and the event must arrive
@@ -407,7 +422,7 @@ func (c19) Run(e *Env) {
 	genEvent := func() evSpec {
 		nEv++
 		title := fmt.Sprintf("ev%d", nEv)
-		text := []string{"plain", "", "two\nlines", "pipe|inside"}[e.Draw(4)]
+		text := []string{"plain", "", "two\nlines", "pipe|inside", "ends with a newline\n", "\nstarts with one", "a\n\nb\n"}[e.Draw(7)]
 		if strings.Contains(text, "\n") {
 			e.Probe("escaped-newline")
 		}
@@ -617,6 +632,11 @@ func (c19) Run(e *Env) {
 						e.Fault("upstream-5xx")
 						e.Probe("forwarder-retry")
 						b.gate.Release(p, HTTPOutcome{Kind: "status", Status: []int{500, 503}[e.Draw(2)]})
+					} else if !b.http && e.Chance(1, 5) {
+						// the backend's own request times out: SendEvent returns a context-class error
+						e.Fault("backend-send-error")
+						e.Probe("backend-send-fails")
+						b.releaseFailing(p, []error{context.DeadlineExceeded, context.Canceled, fmt.Errorf("post event: %w", context.DeadlineExceeded)}[e.Draw(3)])
 					} else {
 						b.release(p)
 					}
